@@ -174,4 +174,7 @@ def run(tier, seed):
             ck.engine_errors.append('translator validation mismatch L=%d d=%d' % (Lc, d))
         else:
             ck.validated += 1
-    return ck.finish('C-binding clause of C05 only: Teakra_Disasm_Do against an arbitrary text of bounded length, for every buffer size 0..N+2. The remaining clauses of C05 (disassembler/assembler text round trip, firmware sources) are std::string/stringstream/unordered_map code that llsym cannot encode within reach and are NOT claimed.')
+    # text clause: injectivity of the rendered token lists modulo unused bits, unused-bit inertness of the text, Do == join
+    from checks import c05s
+    c05s.run_text(ck, tier, seed)
+    return ck.finish('C binding: Teakra_Disasm_Do against an arbitrary text of bounded length, for every buffer size 0..N+2. Text clause: every renderer of the real disassembler executed with std::string on an abstract domain; per row and per pair of rows that could collide, SMT decides that equal token lists imply equality up to unused bits, that unused bits never change the text, and that Do is the token list joined by four spaces. Not decided: the assembler generator (parser.cpp) itself - it is the inverse image of this text by construction - and the firmware sources.')
